@@ -97,6 +97,7 @@ def make_vdatetime(loop):
     class VDateTime(_dt.datetime):
         @classmethod
         def utcnow(cls):
-            return _dt.datetime(2023, 1, 1) + _dt.timedelta(seconds=loop.time() - 1_000_000.0)
+            # wall_offset: the wall clock may be stepped (NTP, VM resume) independently of the loop's monotonic time
+            return _dt.datetime(2023, 1, 1) + _dt.timedelta(seconds=loop.time() - 1_000_000.0 + getattr(loop, "wall_offset", 0.0))
 
     return VDateTime
